@@ -32,6 +32,10 @@ REGISTRY = {
 }
 
 
+# evidence level per property (must equal MANIFEST level_claimed.category)
+LEVELS = {"C14": "fault_enumeration"}
+
+
 def main():
     ap = argparse.ArgumentParser()
     ap.add_argument("prop")
@@ -46,7 +50,7 @@ def main():
     if a.replay:
         body = json.load(open(a.replay))
         return mod.replay(body.get("script") or body)
-    rep = common.Report(a.prop, a.tier, common.seed_from_env())
+    rep = common.Report(a.prop, a.tier, common.seed_from_env(), level=LEVELS.get(a.prop, "model_checking"))
     try:
         getattr(mod, fn)(rep, a.tier, rep.seed)
     except tlc.MachineryError as e:
